@@ -578,8 +578,11 @@ class ConcVC(BaseVC):
 
     def new(self, spec, **attrs):
         C = self.fn(spec)
-        if getattr(C, "__abstractmethods__", None):
-            C = type(C.__name__, (C,), {})
+        extra = {}
+        if not hasattr(C, "__getattr__") and getattr(C, "__module__", "").startswith("resonaate"):
+            extra["__getattr__"] = extract._init_literal_fallback(C)  # fields __init__ sets to a literal (see extract.init_literals)
+        if getattr(C, "__abstractmethods__", None) or extra:
+            C = type(C.__name__, (C,), extra)
             C.__abstractmethods__ = frozenset()
         o = object.__new__(C)
         for k, v in attrs.items():
